@@ -14,7 +14,10 @@ def le(x):
 
 
 def keyseed_spec(key_id, seed):
-    from Cryptodome.Hash import SHA256
+    try:
+        from Cryptodome.Hash import SHA256
+    except ImportError:
+        from Crypto.Hash import SHA256
     S, K = bytes(seed)[:30], le(key_id)
     A = SHA256.new(S + K).digest()
     B = SHA256.new(S + K + S).digest()
@@ -23,7 +26,10 @@ def keyseed_spec(key_id, seed):
 
 
 def checksum_spec(kid, key):
-    from Cryptodome.Cipher import AES
+    try:
+        from Cryptodome.Cipher import AES
+    except ImportError:
+        from Crypto.Cipher import AES
     return AES.new(bytes(key), AES.MODE_ECB).encrypt(le(kid))[:8]
 
 
